@@ -398,6 +398,10 @@ func cgroupScenario(s *Sim, params map[string]string) {
 	s.AtEnd(func() {
 		if s.Ended != "done" {
 			for _, m := range members {
+				if m.cg != nil && m.closeInv != 0 && m.closeRet == 0 && s.Ended == "steps" && s.Now()-m.closeInvAt <= timeout+rebalance+session+2*timeout+time.Second {
+					s.Count("close-pending-at-step-cap") // (the step budget ran out while this Close was within its time bound)
+					continue
+				}
 				if m.cg != nil && m.closeInv != 0 && m.closeRet == 0 {
 					s.Fail("C15", "R6-close-hung", "member %d: ConsumerGroup.Close invoked at %v did not return by %v (run ended: %s); goroutines: %s", m.k, m.closeInvAt, s.Now(), s.Ended, StuckReport(30))
 				}
